@@ -24,6 +24,8 @@ type Case struct {
 	// exactly one of the following models is used by a class
 	Logs       []rdcat.LogSeries   `json:"logs,omitempty"`
 	Interleave bool                `json:"interleave,omitempty"` // rows ordered by timestamp only (Go-side pipeline statements)
+	// Dropped: rows the database returns as well and a filter stage running in the reader drops (not expected in the answer)
+	Dropped []rdcat.LogSeries `json:"dropped,omitempty"`
 	Prom       []rdcat.PromSeries  `json:"prom,omitempty"`
 	Strings    []string            `json:"strings,omitempty"`
 	Docs       []map[string]string `json:"docs,omitempty"`
@@ -96,6 +98,7 @@ func (c *Case) clone() *Case {
 		o.Spans[i] = s
 		o.Spans[i].Tags = append([][2]string{}, s.Tags...)
 	}
+	o.Dropped = append([]rdcat.LogSeries{}, c.Dropped...)
 	o.Hits = append([]rdcat.TraceHit{}, c.Hits...)
 	o.TQL = make([]rdcat.TQLTrace, len(c.TQL))
 	for i, t := range c.TQL {
@@ -367,6 +370,26 @@ func genCase(r *rand.Rand, idx int) *Case {
 				s.Rows = append(s.Rows, rdcat.LogRow{Line: `{"k":"` + k + `","i":` + string(pay) + `}`})
 			}
 			c.Logs = append(c.Logs, s)
+		}
+		if n > 0 && r.Intn(3) == 0 {
+			// a line filter after the parser stage runs in the reader: the kept lines carry KEEPME, and the database
+			// also returns runs of more than a hundred lines without it - newer than every kept line (scanned first)
+			// and in the middle of them - which the filter drops batch after batch
+			for i := range c.Logs {
+				for j := range c.Logs[i].Rows {
+					c.Logs[i].Rows[j].Line = strings.Replace(c.Logs[i].Rows[j].Line, `"i":[`, `"m":["KEEPME"],"i":[`, 1)
+				}
+			}
+			stampRows(r, c.Logs, baseS*1e9, (baseS+1800)*1e9, false)
+			for run, lo := range []int64{baseS + 3000, baseS + 900} {
+				d := rdcat.LogSeries{Fp: c.Logs[0].Fp, Labels: c.Logs[0].Labels}
+				for j := 0; j < 130+r.Intn(100); j++ {
+					d.Rows = append(d.Rows, rdcat.LogRow{TsNs: (lo+int64(j)/2)*1e9 + 500000000 + int64(j%2)*1000 + int64(run), Line: `{"k":"` + c.Logs[0].Labels["k"] + `","i":[` + fmt.Sprint(j) + `,"dropped"]}`})
+				}
+				c.Dropped = append(c.Dropped, d)
+			}
+			c.Req = rdcat.Req{Method: "GET", Path: "/loki/api/v1/query_range", RawQuery: rdcat.Q("query", `{a="b"} | json |= "KEEPME"`, "start", ns(baseS), "end", ns(baseS+3600), "limit", "100000")}
+			break
 		}
 		stampRows(r, c.Logs, baseS*1e9, (baseS+3600)*1e9, false)
 		c.Req = rdcat.Req{Method: "GET", Path: "/loki/api/v1/query_range", RawQuery: rdcat.Q("query", `{a="b"} | json`, "start", ns(baseS), "end", ns(baseS+3600), "limit", "100000")}
@@ -794,7 +817,7 @@ func (c *Case) rows(k rdcat.Kind) [][]driver.Value {
 	switch k {
 	case rdcat.KStreams:
 		if c.Interleave {
-			return rdcat.InterleavedStreamsRows(c.Logs, false)
+			return rdcat.InterleavedStreamsRows(append(append([]rdcat.LogSeries{}, c.Logs...), c.Dropped...), false)
 		}
 		return rdcat.StreamsRows(c.Logs)
 	case rdcat.KMatrix:
